@@ -269,3 +269,26 @@ def forward_may(g: CFG, init: frozenset, transfer) -> dict[int, frozenset]:
                 IN[s.id] = new
                 work.append(s)
     return IN
+
+
+def path_conditions(g: CFG, start: CNode, target: CNode, limit: int = 4000) -> list[list[tuple[ast.AST, object]]]:
+    """all acyclic paths start -> target as lists of (test expression, branch label) for the test / for / match nodes on the path
+    (exceptional edges are not followed).  Used to read *under which conditions* a statement executes, independently of how the
+    guards are nested (guard clauses with continue/return vs if/else)."""
+    out: list[list[tuple[ast.AST, object]]] = []
+    stack = [(start, [], frozenset([start.id]))]
+    steps = 0
+    while stack:
+        n, conds, seen = stack.pop()
+        steps += 1
+        if steps > limit:
+            raise AnalysisError("too many paths")
+        if n is target:
+            out.append(conds)
+            continue
+        for s, lab in n.succ:
+            if lab == "exc" or s.id in seen:
+                continue
+            c2 = conds + [(n.ast, lab)] if n.kind in ("test",) and lab in (True, False) else conds
+            stack.append((s, c2, seen | {s.id}))
+    return out
